@@ -83,9 +83,8 @@ Definition repl (s : st) : st := s <| lockdelay := ∅ |>.
 Definition set_index (k : string) (idx : N) (s : st) : st := s <| index ::= <[k := idx]> |>.
 
 (* A computation inside a memdb write transaction either succeeds, or fails with the state as it
-   was at the point of failure: the caller aborts the transaction (dropping that state), except
-   that the lock-delay map, written outside the transaction, keeps what was written; and the
-   transaction dispatcher goes on executing later operations on that partial state. *)
+   was at the point of failure: the caller aborts the transaction (dropping that state); the
+   transaction dispatcher, however, goes on executing later operations on that partial state. *)
 Inductive result (A : Type) := Ok (a : A) | Err (e : err) (partial : st).
 Arguments Ok {A} a.
 Arguments Err {A} e partial.
@@ -97,6 +96,14 @@ Fixpoint rfold {A S} (f : S -> A -> result S) (l : list A) (s : S) : result S :=
   | [] => Ok s
   | x :: l' => s' ← f s x; rfold f l' s'
   end.
+
+(* decidable equality of whole states, field by field *)
+Definition st_eqb (a b : st) : bool :=
+  bool_decide (kvs a = kvs b) && bool_decide (tombs a = tombs b) &&
+  bool_decide (sessions a = sessions b) && bool_decide (schecks a = schecks b) &&
+  bool_decide (queries a = queries b) && bool_decide (nodes a = nodes b) &&
+  bool_decide (services a = services b) && bool_decide (checks a = checks b) &&
+  bool_decide (index a = index b) && bool_decide (lockdelay a = lockdelay b).
 
 (* ---------- sorted iteration (memdb iterates in index order) ---------- *)
 Fixpoint sinsert (x : string) (l : list string) : list string :=
@@ -214,26 +221,36 @@ Definition check_same (a b : check) : bool :=   (* HealthCheck.IsSame on the mod
 (* ensureCheckTxn, parametrised by the session deleter.  [preserve] = preserveIndexes: true only
    when called from updateSessionCheck, which then keeps the check's old ModifyIndex although its
    status and output change. *)
+Definition resolve_service (nd : string) (hc : check) (s : st) : result check :=
+  if bool_decide (c_service hc = "") then Ok hc
+  else match services s !! (nd, c_service hc) with
+       | None => Err EMissingService s
+       | Some sv => Ok (hc <| c_svcname := sv_name sv |>)
+       end.
+
+Definition invalidate_if_critical (del : N -> string -> st -> result st)
+           (idx : N) (nd cid : string) (hc : check) (s : st) : result st :=
+  if bool_decide (c_status hc = critical)
+  then rfold (fun s' sid => del idx sid s') (sessions_of_check nd cid s) s
+  else Ok s.
+
+Definition store_check (preserve : bool) (idx : N) (nd cid : string) (hc : check)
+           (ex : option check) (s : st) : st :=
+  let modified := match ex with Some x => negb (check_same x hc) | None => true end in
+  if modified then
+    let create := match ex with Some x => c_create x | None => if preserve then c_create hc else idx end in
+    let modify := if preserve then match ex with Some x => c_modify x | None => c_modify hc end else idx in
+    s <| checks ::= <[(nd, cid) := hc <| c_create := create |> <| c_modify := modify |> ]> |>
+  else s.
+
 Definition ensure_check_with (del : N -> string -> st -> result st) (preserve : bool)
            (idx : N) (nd cid : string) (hc : check) (s : st) : result st :=
-  let ex := checks s !! (nd, cid) in
   match nodes s !! nd with
   | None => Err EMissingNode s
   | Some _ =>
-    hc1 ← (if bool_decide (c_service hc = "") then Ok hc
-           else match services s !! (nd, c_service hc) with
-                | None => Err EMissingService s
-                | Some sv => Ok (hc <| c_svcname := sv_name sv |>)
-                end);
-    let modified := match ex with Some x => negb (check_same x hc1) | None => true end in
-    s1 ← (if bool_decide (c_status hc1 = critical)
-          then rfold (fun s' sid => del idx sid s') (sessions_of_check nd cid s) s
-          else Ok s);
-    if modified then
-      let create := match ex with Some x => c_create x | None => if preserve then c_create hc else idx end in
-      let modify := if preserve then match ex with Some x => c_modify x | None => c_modify hc end else idx in
-      Ok (s1 <| checks ::= <[(nd, cid) := hc1 <| c_create := create |> <| c_modify := modify |> ]> |>)
-    else Ok s1
+    hc1 ← resolve_service nd hc s;
+    s1 ← invalidate_if_critical del idx nd cid hc1 s;
+    Ok (store_check preserve idx nd cid hc1 (checks s !! (nd, cid)) s1)
   end.
 
 Definition session_checks_of_node (nd name : string) (s : st) : list string :=
@@ -603,18 +620,19 @@ Fixpoint txn_dispatch (idx : N) (i : nat) (ops : list txnop) (s : st)
 (* Faithful: an operation that fails part-way leaves its partial writes in the memdb transaction and
    the remaining operations run on them ([Err] carries that state); all of it is dropped at the end. *)
 
-(* TxnRW: commit iff no error.  The lock-delay map is written during dispatch, outside the
-   memdb transaction, so it survives an abort (faithful; see DESIGN.md finding 15). *)
+(* TxnRW: commit iff no error.  Lock delays are registered with tx.Defer and therefore applied
+   only when the transaction commits (since the fix recorded in known_findings.json; before it
+   they were written during dispatch and survived an abort). *)
 Definition txn_rw (idx : N) (ops : list txnop) (s : st) : st * cres :=
   let '(s', rs, es) := txn_dispatch idx 0 ops s in
   match es with
   | [] => (s', CTxn rs [])
-  | _ => (s <| lockdelay := lockdelay s' |>, CTxn [] es)
+  | _ => (s, CTxn [] es)
   end.
 
 (* ---------- the FSM ---------- *)
 Definition of_unit (r : result st) (s : st) : st * cres :=
-  match r with Ok s' => (s', CNil) | Err e p => (s <| lockdelay := lockdelay p |>, CErr e) end.
+  match r with Ok s' => (s', CNil) | Err e _ => (s, CErr e) end.
 
 Definition apply_kvs (idx : N) (v : kvverb) (q : kvreq) (s : st) : st * cres :=
   let k := q_key q in let e := ent_of q in
@@ -674,7 +692,7 @@ Definition apply (idx : N) (c : cmd) (s : st) : st * cres :=
   | SessionCreate sid ss =>
     match session_create idx sid ss s with
     | Ok s' => (s', CStr sid)
-    | Err e p => (s <| lockdelay := lockdelay p |>, CErr e)
+    | Err e _ => (s, CErr e)
     end
   | SessionDestroy sid => of_unit (delete_session_top idx sid s) s
   | Register nd id addr skip svc cks => of_unit (ensure_registration idx nd id addr skip svc cks s) s
@@ -688,9 +706,8 @@ Definition apply (idx : N) (c : cmd) (s : st) : st * cres :=
   | QueryDelete qid => (query_delete idx qid s, CNil)
   end.
 
-(* A failing command aborts its memdb transaction, but the lock delays set before the failure
-   survive (faithful; e.g. a registration whose first check goes critical and whose second check
-   names a missing service). *)
+(* A failing command aborts its memdb transaction; nothing of it survives, the deferred lock
+   delays included. *)
 
 Fixpoint run (log : list (N * cmd)) (s : st) : st * list cres :=
   match log with
